@@ -72,6 +72,7 @@ type Server struct {
 	nextID    int64
 	watchers  []*watcher
 	wseq      int
+	compacted int64 // revisions below this one are no longer available to watches (0 = nothing compacted)
 	Log       []Applied
 	LatUs     int64
 	active    *Server
@@ -708,7 +709,14 @@ func (wc *watchClient) Watch(ctx context.Context, key string, opts ...clientv3.O
 		}()
 		// registration is itself a message to the server: events applied before it
 		// lands are not delivered when no start revision was asked for
+		compactedAt := int64(0)
 		err := c.rpc(ctx, "watch.create", w.key, func() error {
+			if startRev > 0 && startRev < s.compacted {
+				// the history this watch asks for has been compacted away: etcd cancels the watch and says
+				// from which revision on events are still to be had
+				compactedAt = s.compacted
+				return nil
+			}
 			if startRev > 0 {
 				// replay from the requested revision out of the applied-write log
 				for _, a := range s.Log {
@@ -727,6 +735,11 @@ func (wc *watchClient) Watch(ctx context.Context, key string, opts ...clientv3.O
 		})
 		if err != nil {
 			w.ch <- clientv3.WatchResponse{Canceled: true}
+			return
+		}
+		if compactedAt > 0 {
+			s.sim.Probe("etcd.watch-from-compacted-revision")
+			w.ch <- clientv3.WatchResponse{Canceled: true, CompactRevision: compactedAt}
 			return
 		}
 		for {
@@ -774,6 +787,17 @@ func (wc *watchClient) Watch(ctx context.Context, key string, opts ...clientv3.O
 			out := simrt.IO(ctx, "etcd.watch.deliver", w.key+"@"+wc.name, s.lat(), nil)
 			switch {
 			case out.Fault == "ctx_cancel" || out.Fault == "dead" || out.Fault == "crash" || out.Fault == "shutdown":
+				return
+			case strings.HasSuffix(out.Fault, "watch.compact"):
+				// the stream breaks and the server compacts its history up to and including the events that
+				// were pending: they can no longer be had from any watch, only the current state can be read
+				s.mu.Lock()
+				if c := batch[len(batch)-1].Kv.ModRevision + 1; c > s.compacted {
+					s.compacted = c
+				}
+				at := s.compacted
+				s.mu.Unlock()
+				w.ch <- clientv3.WatchResponse{Canceled: true, CompactRevision: at}
 				return
 			case strings.HasSuffix(out.Fault, "watch.close"):
 				// the stream breaks (compaction / cancelled stream): the pending events are lost with it
